@@ -120,6 +120,10 @@ def run(tier, seed, replay=None):
     # "in any association or session state": a state reached by more requests than any queue inside the agent holds
     # (end-marker queue 1024, heartbeat reset queue 100). The requests are valid; the last events are probes.
     run_soak(ck, binary, rng, lambda c, it, ob: l1.mon_c01(c, it, ob), dist)
+    # configuration variants (Node ID forms, debug log level, heartbeat monitor) and two-message histories in which a
+    # provisioned flow description that cannot be parsed is used by a later PDR
+    run_soak(ck, binary, rng, lambda c, it, ob: l1.mon_c01(c, it, ob) + l1.mon_c02(c, it, ob), dist,
+             scenarios=l1.variant_scenarios(rng, 3) + l1.pfd_then_pdr_scenarios(rng))
     if not replay:
         up4_leg(ck, binary, rng, dist)
     # the model takes the datagram as go-pfcp decodes it, so it is evaluated on mutated and garbage datagrams alike
